@@ -6,7 +6,6 @@ import (
 	"io"
 	"log"
 
-	"github.com/dim13/cobs"
 	"github.com/simpleiot/simpleiot/test"
 )
 
@@ -150,12 +149,43 @@ func (cw *CobsWrapper) Read(b []byte) (int, error) {
 	}
 }
 
+// cobsEncode returns p encoded with Consistent Overhead Byte Stuffing,
+// followed by the frame delimiter. A block of 254 non-zero bytes (code 0xff)
+// implies no zero, so a zero that follows such a block is encoded as an empty
+// block of its own.
+func cobsEncode(p []byte) []byte {
+	out := make([]byte, 0, len(p)+len(p)/254+2)
+	for {
+		n := 0
+		for n < len(p) && n < 254 && p[n] != 0 {
+			n++
+		}
+		out = append(out, byte(n+1))
+		out = append(out, p[:n]...)
+		p = p[n:]
+		if len(p) == 0 {
+			break
+		}
+		if n == 254 {
+			continue
+		}
+		// the zero implied by this block
+		p = p[1:]
+		if len(p) == 0 {
+			// the frame ends with a zero: it needs a block after it
+			out = append(out, 1)
+			break
+		}
+	}
+	return append(out, 0)
+}
+
 func (cw *CobsWrapper) Write(b []byte) (int, error) {
 	if cw.debug >= 8 {
 		log.Println("SER TX RAW:", test.HexDump(b))
 	}
 
-	w := append([]byte{0}, cobs.Encode(b)...)
+	w := append([]byte{0}, cobsEncode(b)...)
 
 	if cw.debug >= 9 {
 		log.Println("SER TX COBS:", test.HexDump(w))
